@@ -46,7 +46,7 @@ func init() {
 		},
 		Run: runC04,
 		Min: func(t core.Tier) map[string]int64 {
-			return map[string]int64{"pairs": 6000, "pairs:xml": 2500, "pairs:json": 2500, "delivered_nodes_compared": 5000, "pairs_with_nested_candidates": 300,
+			return map[string]int64{"pairs": 6000, "pairs:xml": 2500, "pairs:json": 2500, "delivered_nodes_compared": 3000, "pairs_with_nested_candidates": 300,
 				"pairs_with_rejected_candidates": 500, "pairs_with_two_predicates": 300, "end_to_end_pairs": 500}
 		},
 	})
